@@ -50,7 +50,9 @@ def strategy(tier):
         'avoid_known': st.sampled_from([True] * 7 + [False]),
         # a constructed column of 20-odd codes or names in which a kind of
         # character first appears in a value that sorts late
-        'late': st.sampled_from([None] * 47 + ['codes', 'names', 'punct']),
+        'late': st.sampled_from([None] * 72 + ['codes', 'names', 'punct',
+                                               'braces', 'braces2', 'syntax',
+                                               'syntax2', 'syntax3']),
     }).map(steer)
 
 
@@ -60,6 +62,12 @@ LATE = {
               'Jo', 'Kim', 'Lee', 'Max', 'Ned', 'Ola', 'Pam', 'Quin', 'Ray',
               'Sue', 'Tom', 'Zo\u00eb', '\u00c9mile'],
     'punct': ['k-%02d' % i for i in range(20)] + ['k_21', 'z.22'],
+    # constant literal text that looks like regular-expression syntax
+    'braces': ['x^{2}', 'y^{2}', 'z^{2}'],
+    'braces2': ['v{2}', 'w{2}', 'v{2}'],
+    'syntax': ['a(1)', 'b(1)', 'c(1)'],
+    'syntax2': ['k[0]+', 'm[0]+'],
+    'syntax3': ['p.*?', 'q.*?', 'r.*?'],
 }
 
 
